@@ -891,14 +891,14 @@ _first_map = None
 
 
 def first_maps():
-    """name format -> (to-table of the first map with that identifier, set of all wire names of the LAST map with it)"""
+    """name format -> to-table of the first map with that identifier ; name format -> every wire name any map with it knows"""
     global _first_map
     if _first_map is None:
         _first_map = {}
         last = {}
         for typ, ident, to, fro in translate_c08.raw_maps():
             _first_map.setdefault(ident, dict((k.lower(), k) for k, _ in to))
-            last[ident] = set(k.lower() for k, _ in fro)
+            last.setdefault(ident, set()).update([k.lower() for k, _ in fro] + [v.lower() for _, v in to])
         _first_map = (_first_map, last)
     return _first_map
 
